@@ -33,6 +33,14 @@ def _init_worker():
 def _worker_run(task):
     i, seed_i, tier = task
     m = _MACHINE
+    if isinstance(i, str) and i.startswith('R:'):
+        # a regression input: replayed in a forked pristine child, like every confirmation
+        try:
+            with open(seed_i) as f:
+                rp = json.load(f)
+            return {'regress': seed_i, 'program': rp, 'result': m.run(rp, mode='fork')}
+        except BaseException as e:
+            return {'regress': seed_i, 'program': None, 'result': {'status': 'inconclusive', 'error': repr(e)}}
     try:
         rng = random.Random(seed_i)
         prog = m.generate(rng, tier)
@@ -127,16 +135,15 @@ def main(machine, argv=None):
     # regression inputs: minimised programs of violations found earlier (each was a
     # genuine defect, since fixed or listed).  A fixed entry suppresses nothing: if
     # its program violates again, that is reported like any other violation.
+    # They are replayed (in forked pristine children) by the pool workers, first in the queue and
+    # regardless of the wall budget of the batch.
     regress_results = []
+    regress_tasks = []
     rdir = os.path.join(env.VERIF, 'regress')
     if os.path.isdir(rdir) and not args.first:
         for fn in sorted(os.listdir(rdir)):
             if fn.startswith(prop + '-') and fn.endswith('.json'):
-                path = os.path.join(rdir, fn)
-                with open(path) as f:
-                    rp = json.load(f)
-                rr = machine.run(rp, mode='fork')
-                regress_results.append((path, rp, rr))
+                regress_tasks.append(('R:' + fn, os.path.join(rdir, fn), tier))
     tasks = [(i, seed_for(prop, seed, i), tier) for i in range(args.first, args.first + nruns)]
     agg = {}
     results = []
@@ -150,7 +157,8 @@ def main(machine, argv=None):
     deadline = t0 + wall
     from concurrent.futures.process import BrokenProcessPool
     it = iter(tasks)
-    requeue = []                 # tasks that were in flight when a worker died
+    requeue = list(reversed(regress_tasks))      # served first, whatever the deadline
+    # (also) tasks that were in flight when a worker died
     strikes = {}                 # task index -> number of pool breakages it was in flight for
     pool_breaks = 0
     while True:
@@ -188,6 +196,10 @@ def main(machine, argv=None):
                             else:
                                 requeue.append(tt)
                         pending.clear()
+                        break
+                    if 'regress' in r:
+                        regress_results.append((r['regress'], r.get('program'), r['result']))
+                        submit_some()
                         break
                     done += 1
                     st = r.get('status', 'ok')
@@ -241,7 +253,10 @@ def main(machine, argv=None):
     exit_code = 0
     replays = []
     leaks = 0
-    for path, rp, rr in regress_results:
+    if len(regress_results) < len(regress_tasks):
+        print('HARNESS-ERROR: %d of %d regression inputs were not replayed' % (len(regress_tasks) - len(regress_results), len(regress_tasks)))
+        leaks += 1
+    for path, rp, rr in sorted(regress_results, key=lambda t: t[0]):
         if rr.get('status') == 'inconclusive':
             print('HARNESS-ERROR: regression input %s inconclusive' % path)
             leaks += 1
